@@ -97,6 +97,8 @@ def extra(x=None): return ("extra", x)
 # ---------- source ----------
 def src(e):
     k = e[0]
+    if k == "lit":                       # a closed literal kept as one value (Coq: ELit)
+        return src(e[1])
     if k == "num":
         return num_src(e[1])
     if k == "str":
@@ -213,7 +215,8 @@ def psrc(p):
     if k == "ptup":
         return "(" + ", ".join(("..." + (i[1] or "")) if i[0] == "extra" else "%s%s: %s" % (attr_name(n), "?" if i[2] is not None else "", isrc(i)) for n, i in p[1]) + ")"
     if k == "pdict":
-        return "{" + ", ".join(("..." + (i[1] or "")) if i[0] == "extra" else "%s%s: %s" % (src(ke), "?" if i[2] is not None else "", isrc(i)) for ke, i in p[1]) + "}"
+        ksrc = lambda ke: "(%s)" % src(ke) if ke[0] == "var" else src(ke)       # a name as a key is an expression: (x)
+        return "{" + ", ".join(("..." + (i[1] or "")) if i[0] == "extra" else "%s%s: %s" % (ksrc(ke), "?" if i[2] is not None else "", isrc(i)) for ke, i in p[1]) + "}"
     if k == "pset":
         return "{" + ", ".join(isrc(i) for i in p[1]) + "}"
     raise ValueError(k)
@@ -237,8 +240,30 @@ def seq_lit(kind, off, vals):
     return "(ELit (VSet (vseq_from %s (%d) %s)))" % (kind, off, "[" + "; ".join(vals) + "]")
 
 
+def lit_val(e):
+    """a closed literal (numbers, strings, sets, tuples, arrays, dicts of literals) as a Coq val term"""
+    k = e[0]
+    if k == "num":
+        return num_coq(e[1])
+    if k == "str":
+        return "(VSet (vseq_from n_char (%d) [%s]))" % (e[2], "; ".join("(vint %d)" % ord(c) for c in e[1]))
+    if k == "set":
+        return "(VSet [%s])" % "; ".join(lit_val(x) for x in e[1])
+    if k == "tup":
+        return "(VTup [%s])" % "; ".join("(%s, %s)" % (cname(n), lit_val(x)) for n, x in e[1])
+    if k == "arr":
+        return "(VSet [%s])" % "; ".join("(vitem (%d) %s)" % (e[2] + i, lit_val(x)) for i, x in enumerate(e[1]) if x is not None)
+    if k == "dict":
+        return "(VSet [%s])" % "; ".join("(ventry %s %s)" % (lit_val(a), lit_val(b)) for a, b in e[1])
+    if k == "true":
+        return "vtrue"
+    raise ValueError(k)
+
+
 def coq(e):
     k = e[0]
+    if k == "lit":
+        return "(ELit %s)" % lit_val(e[1])
     if k == "num":
         return "(ELit %s)" % num_coq(e[1])
     if k == "str":
